@@ -13,6 +13,27 @@ var propInfo = map[string]struct {
 			"oracle: the sem_* axioms of contracts_verif_filter.go transcribe the README's meaning of key = / ^= / > >= < <= / in / between / & | ; any other atom is unconstrained (may hold anywhere)",
 			"A-COMP-C02: that the plan built by Optimize() reads exactly covers(scan type) is the subject of the scan-plan contracts (C01/C18), composed on paper",
 		}},
+	"C08": {"proof",
+		"The limit state machines (LimitPlan, FinalLimitPlan: Init, Next, Batch) are proved against their child's ghost output sequence: under the object invariant 0<=skips<=Start, 0<=current<=Count, child cursor = skips+current, every call returns exactly the next rows Start+current.. of the child's sequence, stops at Count or at the child's end, and re-establishes the invariant - for every offset, count, result size, batch size (PlanBatchSize symbolic >= 1) and every split of the child's output into batches (the child's Batch contract allows any m >= 0 rows).",
+		[]string{
+			"A-COMP-C08: that the concatenation of all returned batches is S[Start..Start+Count) follows from the per-call contract by induction over calls (the object invariant is the induction hypothesis and is machine-checked; the induction itself is a paper step)",
+			"the child satisfies the Plan / FinalPlan interface contract of contracts_verif_plan.go (assumed for children that are not themselves under contract)",
+			"not yet under contract for this property: the limit half of AggregatePlan, parser.parseLimit and the plan wiring in optimizer.go",
+		}},
+	"C11": {"proof",
+		"DeletePlan.execute/Next/Batch are proved against the child's ghost output sequence (fixed at Init: snapshot cursors): the loop drains the child, every mutating storage call it issues is a BatchDelete whose keys are exactly the keys of the child batch just read (ghost lastKeys vs pseq), the number of keys handed to BatchDelete equals the number of rows drained, no Put/BatchPut/Delete is in the frame, and the plan executes once (executed flag).",
+		[]string{
+			"A-COMP-C11: that the union of the consecutive batches is the whole child sequence, and that this sequence is what `select * where P [limit]` returns (C01, C02, C08), are composition steps argued on paper",
+			"A-STORE: BatchDelete(keys) removes exactly those keys; a failing call leaves the store unchanged",
+			"not yet under contract for this property: optimizer.buildDeletePlan and the DELETE -> REMOVE shortcut (exactness of MGET regions)",
+		}},
+	"C12": {"proof",
+		"PutPlan and RemovePlan (processKVPair/processKey, execute, Init, Next, Batch) are proved: each key/value is the evaluated expression (the value expression sees its own pair's evaluated key), no storage call is issued before every expression has evaluated, exactly one call is issued on success (none for n=0, Put/Delete for n=1, BatchPut/BatchDelete with the pairs in order for n>=2), and after completion polling issues nothing (executed flag; ghost counters nmut/nops).",
+		[]string{
+			"A-EVAL: Expression.Execute is a function of the expression and the pair (interface contract of contracts_verif_storage.go; its implementations are verified under C01/C05 where claimed)",
+			"A-STORE: Put/BatchPut/Delete/BatchDelete apply their arguments in order; that a following select observes the writes is C01 on the new state",
+			"not yet under contract for this property: parser.parsePut/parseRemove and the statement validators",
+		}},
 }
 
 func propLevel(p string) (string, bool) {
@@ -30,11 +51,5 @@ func propAssumptions(p string, sp *Specs) []string {
 		"A-INT: machine integers are treated as mathematical integers",
 		"the SMT prelude's byte-string theory (total order, prefix order, convexity of prefix sets, concatenation) holds of []byte under bytes.Compare / bytes.HasPrefix",
 	)
-	for _, n := range sortedKeys(sp.Axioms) {
-		if sp.Axioms[n].Cex {
-			continue
-		}
-		out = append(out, "axiom (trusted, from the documentation): "+n+" — "+sp.Axioms[n].Body.String())
-	}
 	return out
 }
